@@ -4,8 +4,11 @@ C09 — every basis projection and operator equals its defining Abel integral.
 proofs : lean/PyAbel/Props/C09.lean (Daun degree 0 and the onion-peeling weights are, for all indices, the line-of-sight
          integrals of the rectangular shells — Lemmas/Abel.lean `abel_shell`; Daun degree 1 and degree 2 entries are, for all
          indices, the integrals of the hat functions / quadratic B-splines — Lemmas/AbelRamp.lean `abel_ramp`, `abel_qramp`, by the
-         fundamental theorem of calculus)
-K      : Lean matrices (onionW, twoPointD, threePointD, daun0, daun1, daun2) vs the arrays the implementation builds
+         fundamental theorem of calculus); lean/PyAbel/Props/C09Rbasex.lean (every rBasex entry p_{R;n}(r), 1 ≤ r ≤ R, every
+         angular order: the code's closed forms F[−1..3], its recursion for higher F[n] and the second difference of rFRF are
+         2∫ b_R(ρ)(r/ρ)ⁿ dz — Lemmas/AbelFrac.lean: reduction formula for ∫(r/ρ)ⁿ by the fundamental theorem of calculus)
+K      : Lean matrices (onionW, twoPointD, threePointD, daun0, daun1, daun2) vs the arrays the implementation builds;
+         the Lean model of _bs_rbasex (driver op rbxbasis) vs rbasex._bs_rbasex, whole matrices, orders 0..8, Rmax up to 150
          + through get_bs_cached after other requests (memory and disk): the arrays handed out are the generators' arrays
 S      : quadrature of the defining integral (scipy.integrate.quad on the smooth line-of-sight form
          2∫₀^∞ f(√(x²+z²)) dz; independent of PyAbel) for basex χ_k (σ ∈ (0.5, 3]), daun degrees 0-3 (degree 3: Abel of the
@@ -21,6 +24,26 @@ from scipy.interpolate import CubicHermiteSpline, CubicSpline
 
 from harness.common import Check, ensure_driver, seed, source_fingerprint
 from harness.methods import corr_operators, quiet
+
+
+def corr_rbasex_basis(ck, tier):
+    """the Lean model of rbasex._bs_rbasex (the object of C09Rbasex's theorems) vs the arrays the implementation builds"""
+    from abel import rbasex
+    from harness.common import drive, h2arr
+    cases = [(6, 4, False), (12, 5, True), (40, 8, True), (25, 2, False)] if tier == "quick" else \
+            [(6, 4, False), (12, 5, True), (40, 8, True), (100, 2, False), (150, 6, False), (60, 8, False), (33, 3, True), (1, 2, False), (2, 1, True)]
+    for Rmax, order, odd in cases:
+        bs = quiet(rbasex._bs_rbasex, Rmax, order, odd)
+        orders = list(range(0, order + 1, 1 if odd else 2))
+        outs = drive([f"rbxbasis {Rmax} {n}" for n in orders])
+        for P, out, n in zip(bs, outs, orders):
+            ck.count(("K.rbxbasis", Rmax, n), suite="K.rbasex-basis")
+            M = h2arr(out.split()[3:]).reshape(Rmax + 1, Rmax + 1) if out.startswith("ok") else None
+            # second differences of terms of size R² ln R: a few ulps of those
+            if M is None or M.shape != np.shape(P) or np.abs(M - P).max() > 1e-14 * max(4.0, Rmax) ** 2:
+                ck.disagree("K.rbasex-basis", dict(Rmax=Rmax, order=order, odd=odd, n=n),
+                            f"_bs_rbasex({Rmax}, {order}, {odd}) for n={n} differs from the Lean model by "
+                            f"{np.abs(M - P).max() if M is not None and M.shape == np.shape(P) else 'shape / bad-op'}")
 
 
 def abel_quad(f, x, rmax, breaks=()):
@@ -280,16 +303,18 @@ def run(tier):
                       "orders (thorough 0..8 ± odd, Rmax 60), two/three-point rows i ≥ 1, onion D·W = 1. distinct = (family, order/degree, "
                       "index class)")
     ck.cov["trusted_base"] = ["Lean 4.33 kernel", "axioms propext/Classical.choice/Quot.sound",
-                              "theorem-backed families on this run: daun degree 0, onion-peeling W (all indices)",
-                              "quadrature-backed only: daun 1-3, basex (series with ±9(u+2) cut-off), rbasex, two/three-point (rows i ≥ 1; "
+                              "theorem-backed families on this run: daun degrees 0-2, onion-peeling W, rbasex p_{R;n} (all indices, all orders)",
+                              "quadrature-backed only: daun 3, basex (series with ±9(u+2) cut-off), two/three-point (rows i ≥ 1; "
                               "the axis row uses the documented special cases and is compared with the model only)",
                               "scipy.integrate.quad (1e-12) and scipy CubicSpline for the degree-3 interpolant"]
-    ck.cov["unproved_clauses"] = ["daun degree 1-3, basex, rbasex, two-point, three-point = their integrals (measured by quadrature)"]
+    ck.cov["unproved_clauses"] = ["daun degree 3, basex, two-point, three-point = their integrals (measured by quadrature)"]
     ck.cov["source_fingerprint"] = source_fingerprint(["abel/basex.py", "abel/daun.py", "abel/rbasex.py", "abel/dasch.py"])
     ck.proofs("PyAbel.Props.C09")
+    ck.proofs("PyAbel.Props.C09Rbasex")
     ok, log = ensure_driver()
     if ok:
         corr_operators(ck, tier)
+        corr_rbasex_basis(ck, tier)
     else:
         ck.broken.append(dict(kind="proof", module="pyabel_drv", why="driver build failed", log=log[-1500:]))
     oracle(ck, tier, deep or bool(ck.broken))
